@@ -135,6 +135,23 @@ def r3_conversions(rep, facts):
                 if r is not None:
                     return r
             return None
+        from .shared import method_chain, local_origins
+        SELECTING = {'filter', 'filter_map', 'skip', 'take', 'step_by', 'skip_while', 'take_while', 'map_while', 'zip', 'nth', 'find', 'last', 'next', 'peekable_next_if'}
+        orig = local_origins(b['body'])
+
+        def whole(iterable):
+            """the iterated expression hands out every element (no selecting adaptor between the storage and the loop)"""
+            _, chain = method_chain(iterable, orig)
+            return not (set(chain) & SELECTING)
+        for m in walk(b['body']):
+            if m.get('k') == 'match' and 'ForLoopDesugar' in (m.get('src') or ''):
+                sc = peel(m['scrut'])
+                iterable = sc['args'][0] if sc.get('k') == 'call' and sc.get('args') else sc
+                for n in walk(m):
+                    if n.get('k') == 'loop':
+                        for x in walk(n):
+                            if x.get('k') == 'mcall' and x.get('name') == meth:
+                                return cond_depth(n, x, 0) == 0 and whole(iterable)
         for n in walk(b['body']):
             if n.get('k') == 'loop':
                 for x in walk(n):
@@ -143,6 +160,8 @@ def r3_conversions(rep, facts):
         # iterator form: <elements>.for_each(Item::make_value) / .for_each(|v| v.make_value())
         for n in walk(b['body']):
             if n.get('k') == 'mcall' and n.get('name') == 'for_each' and n.get('args'):
+                if not whole(n['recv']):
+                    return False
                 a = peel(n['args'][0])
                 if a.get('k') == 'path' and last_seg(a.get('path') or '') == meth:
                     return True
